@@ -5,6 +5,7 @@ package upstream_test
 // the generator draws; replies carry tokens, so which leg produced the returned message is visible.
 
 import (
+	"strings"
 	"context"
 	"encoding/binary"
 	"fmt"
@@ -24,6 +25,7 @@ type vfC16Script struct {
 	udpPadTo   int // > 0: the UDP reply is padded to exactly this many octets
 	udpDelay time.Duration // the UDP reply is held back this long (to arrive late in the caller's deadline)
 	udpTC      bool
+	udpEcho    string // how a truncated UDP reply echoes the question: "same", "upper" (other letter case), "none" (no question section)
 	udpRcode   uint16
 	udpExtra   int    // extra answer records in the UDP reply
 	tcp        string // "reply", "rcode", "close", "silence", "tc-reply"
@@ -56,8 +58,13 @@ func vfTokenOf(b []byte) (uint32, *vfkit.Decoded, bool) {
 }
 
 func vfTokenReply(q *vfkit.Decoded, bits uint16, token uint32, extra int) []byte {
+	return vfTokenReplyQ(q, q.Q, bits, token, extra)
+}
+
+// vfTokenReplyQ is vfTokenReply with the question section given (nil = none).
+func vfTokenReplyQ(q *vfkit.Decoded, qs []vfkit.Question, bits uint16, token uint32, extra int) []byte {
 	rd := binary.BigEndian.AppendUint32(nil, token)
-	m := &vfkit.Msg{ID: q.ID, Bits: vfkit.BitQR | vfkit.BitRD | vfkit.BitRA | bits, Q: q.Q,
+	m := &vfkit.Msg{ID: q.ID, Bits: vfkit.BitQR | vfkit.BitRD | vfkit.BitRA | bits, Q: qs,
 		An: []vfkit.RR{{Owner: q.Q[0].Name, Type: 1, Class: 1, TTL: 60, RData: []vfkit.RDPart{{Raw: rd}}}}}
 	for i := 0; i < extra; i++ {
 		m.An = append(m.An, vfkit.RR{Owner: q.Q[0].Name, Type: 16, Class: 1, TTL: 60, RData: []vfkit.RDPart{{Raw: []byte{3, 'a', 'b', byte('0' + i%10)}}}})
@@ -129,7 +136,22 @@ func (s *vfC16Server) serveUDP() {
 		if sc.udpTC {
 			bits |= vfkit.BitTC
 		}
-		reply := vfTokenReply(d, bits, sc.udpToken, sc.udpExtra)
+		dd := d
+		if sc.udpTC && sc.udpEcho != "" && sc.udpEcho != "same" {
+			cp := *d
+			cp.Q = nil
+			if sc.udpEcho == "upper" {
+				q0 := d.Q[0]
+				n := make(vfkit.Name, len(q0.Name))
+				for i, l := range q0.Name {
+					n[i] = []byte(strings.ToUpper(string(l)))
+				}
+				q0.Name = n
+				cp.Q = []vfkit.Question{q0}
+			}
+			dd = &cp
+		}
+		reply := vfTokenReplyQ(d, dd.Q, bits, sc.udpToken, sc.udpExtra)
 		if n := sc.udpPadTo - len(reply) - 11; sc.udpPadTo > 0 && n >= 0 {
 			// one opaque additional record owned by the root brings the datagram to exactly udpPadTo octets
 			reply = append([]byte(nil), reply...)
@@ -249,6 +271,7 @@ func TestVfC16Fallback(t *testing.T) {
 		tok := vfC16Tok
 		sc := &vfC16Script{
 			udpTC:    rapid.Bool().Draw(t, "udpTC"),
+			udpEcho:  rapid.SampledFrom([]string{"same", "same", "upper", "none"}).Draw(t, "truncatedReplyEchoesQuestion"),
 			udpRcode: uint16(rapid.IntRange(0, 5).Draw(t, "udpRcode")),
 			udpExtra: rapid.IntRange(0, 3).Draw(t, "udpExtra"),
 			tcp:      rapid.SampledFrom([]string{"reply", "reply", "tc-reply", "rcode", "close", "silence"}).Draw(t, "tcpOutcome"),
